@@ -191,18 +191,18 @@ Proof.
 Qed.
 
 (* AsLocation and tryLocation never panic *)
-Lemma wf_st_of input : wf (st_of input).
-Proof. unfold st_of, wf. cbn. repeat split; auto; lia. Qed.
+Lemma wf_st_of input : zlen input <= input_bound -> wf (st_of input).
+Proof. intros H. unfold st_of, wf, small. cbn [off stk rest frames_le]. repeat split; auto; try lia; try constructor. Qed.
 
-Theorem as_location_no_panic s : as_location s <> Panic.
+Theorem as_location_no_panic s : zlen s <= input_bound -> as_location s <> Panic.
 Proof.
-  unfold as_location, run. pose proof (safe_parse_location (S (length s)) (st_of s) (wf_st_of s)) as H.
+  intros Hb. unfold as_location, run. pose proof (safe_parse_location (S (length s)) (st_of s) (wf_st_of s Hb)) as H.
   destruct (parse_location (S (length s)) (st_of s)) as [[l|k| |] s']; cbn [fst]; try discriminate. contradiction.
 Qed.
 
-Theorem try_location_no_panic s : try_location s <> Panic.
+Theorem try_location_no_panic s : zlen s <= input_bound -> try_location s <> Panic.
 Proof.
-  unfold try_location, run.
-  pose proof (safe_pExact _ (safeL_safe _ (safe_try_location_parser (S (length s)))) (st_of s) (wf_st_of s)) as H.
+  intros Hb. unfold try_location, run.
+  pose proof (safe_pExact _ (safeL_safe _ (safe_try_location_parser (S (length s)))) (st_of s) (wf_st_of s Hb)) as H.
   destruct (pExact (try_location_parser (S (length s))) (st_of s)) as [[l|k| |] s']; cbn [fst]; try discriminate. contradiction.
 Qed.
